@@ -6,11 +6,11 @@ import vf
 
 META = {
     "title": "DDDMP round trip (binary/ASCII, 2.0/3.0, names) and rejection of malformed files",
-    "technique": "Rocq proof over a hand-written Gallina model of the WHOLE DDDMP file: header loader (DumpHeader::load: keywords, number and name lists, from_utf8_lossy, all cross-field checks), header printer (export_common), node sections (7-bit integers, escaping, node codes, binary and ASCII node lines with a hash-consing importer), trailer and roots, name sanitising; model tied to /repo by differential runs: the extracted whole-file importer model reads every file the real exporter writes and every mutated file, real loader/importer Err <-> model Err, both Ok => equal header fields and equal functions; the extracted exporter models reproduce header and node section of every exported file byte for byte",
+    "technique": "Rocq proof over a hand-written Gallina model of the WHOLE DDDMP file: header loader (DumpHeader::load: keywords, number and name lists, from_utf8_lossy, all cross-field checks), header printer (export_common), node sections (7-bit integers, escaping, node codes, binary and ASCII node lines with a hash-consing importer), trailer and roots, name sanitising; model tied to /repo by differential runs: the extracted whole-file importer model reads every file the real exporter writes and every mutated file, real loader/importer Err <-> model Err, both Ok => equal header fields and equal functions; the extracted exporter models reproduce header and node section of every exported file byte for byte; ternary diagrams (TDD, package C15t): model of the export lines for three children / three terminals, of the generic ASCII reader at ARITY = 3 and of the decoder of the written format, the extracted decoder reads every TDD file the real exporter writes (no TDD importer exists in /repo); ExportSettings builder/getters and binary_supported modelled and compared on every export",
     "category": "proof",
     "design_ref": "DESIGN.md section 5, C15",
-    "level_text": "Theorems in coq/Props/C15.v (checked by coqc on every run, Print Assumptions audited). Node sections: decode_7bit(encode_7bit n) = n for every usize, unescape(escape bs) = bs, node code byte round trip, the exporter's choice of Terminal/Relative1/RelativeID/AbsoluteID codes is decoded to the same ids; for every reduced, duplicate-free, bottom-up numbered diagram the importer model run on the exporter model's BINARY node section (BCDD) and ASCII node section (BDD, BCDD, ZBDD, MTBDD) rebuilds exactly the exported nodes without consuming further input. Names: written variable/root names are non-empty and free of spaces/control characters, clean names are written unchanged, strict mode reports exactly the unclean/empty ones. WHOLE FILE (package C15h): load_header is total, any fuel above the input length gives the same result; load_header(print_header x ++ rest) = Ok(header_of x, rest) for every well-formed exporter-side header (2.0/3.0, names or not, any order/support; in 2.0 the support names are recovered exactly); whole-file round trip import_whole(export_whole x dag) = Ok(header_of x, the exported nodes, the exported roots) in binary (BCDD) and ASCII (all four kinds) mode; SAFETY OF ACCEPTANCE on ARBITRARY bytes: an accepted header satisfies all relations between its fields (ids ascending < nvars, distinct levels < nvars, counts, root ids non-zero <= nnodes, support_var_order = support sorted by level), an accepted file yields a well-formed unique table (children before parents, levels strictly increasing along edges, levels from the support), one valid edge per node id, valid roots, and every root denotes a well-defined function (unique big-step value = the executable evaluation for every sufficient fuel); the manager operations of the importer preserve the meaning (the edge returned by reduce+insert for BDD/BCDD/MTBDD denotes 'if x_level then t else e', a flipped tag and BDD not_edge denote the negation); NO PANIC: the model returns a special internal error wherever the Rust code indexes a vector / unwraps an Option / the model's fuel ends, and this value is proved unreachable for the loader and the importer on every input. On every run the real exporter/importer (BDD, BCDD, ZBDD, MTBDD; TDD export + header only) are driven through all 256 three-variable functions and random diagrams up to 10 variables in {ascii,binary}x{2.0,3.0}x{named,unnamed vars}x{named,unnamed roots}x{strict,non-strict} with hostile names: exporter Ok => DumpHeader::load + import Ok, same manager => identical handles, fresh manager / embedding => equal truth tables, header accessors = the model's sanitised names / support / order / root names and = the model loader's header, strict errors <=> model, model importer isomorphic to the dump of the real diagram, exporter models byte-identical. Malformed stream: every truncation point, random byte mutations and structured header mutations (numbers, tokens, separators, line order, duplicate/missing/new lines, other .varinfo/.mode/.ver, invalid UTF-8) of valid files: DumpHeader::load Err <-> load_header Err, both Ok => all header fields equal; import Err <-> model Err, both Ok => the real handles have exactly the functions the model reads from the same bytes; panics (catch_unwind), process aborts and hangs (watchdog) are violations.",
-    "level_note": "Trusted: Coq kernel, extraction (ExtrOcamlBasic), OCaml driver (trace parsing, comparison), Rust harness. The header is no longer scanned by the driver: the extracted load_header / import_whole_guarded (proved equivalent to import_whole) read the raw bytes. Modelled, not verified against a specification of their own: String::from_utf8_lossy (utf8_lossy mirrors core::str::lossy; compared on every name the real loader returns, incl. invalid UTF-8 from the mutation stream), the i64 terminal syntax, decimal printing (Gallina printer compared with the real output on every export). The exporter-side header (xheader: levels, support flags, level_to_var, sanitised names, root ids) is built by the driver from the trace; root ids are taken from the file because the exporter's node numbering depends on hash-map iteration order (they are checked against the dump through the isomorphism check). Not proved: uniqueness of the generated variable names (C15_var_names_unique_partial; the run checks that no exported file contains a duplicate name). The round-trip theorems are about reduced duplicate-free diagrams (what a manager holds); on other node lists the model importer hash-conses and reduces like the real one: covered by safety of acceptance (proof) and the malformed stream (run). Semantic correctness of acceptance w.r.t. a denotational reading of an arbitrary (non-exporter) file is not a theorem: 'both accept => same functions' is checked by the run. Totality of the REAL importer on arbitrary bytes is a search (mutation streams); the no-panic theorems are about the model, whose panic sites mirror the Rust indexing/unwrap sites. The loader's `lines` field (error messages only) is not modelled; vec![0; nvars] is modelled by a rank function (no allocation). ZBDD/MTBDD imports use a rejecting complement function; the six orders of the three-variable functions and random orders of the random diagrams are realised by oxidd_reorder::set_var_order on top of permuted variable numbering (VERIF_C15_REORDER=0 switches the reorder operations off). Files claiming more than 2^22 variables are not handed to DumpHeader::load (it allocates .nvars words by design). TDD has no importer (import::<TDDFunction> does not compile), only its exports and their headers are checked.",
+    "level_text": "Theorems in coq/Props/C15.v (checked by coqc on every run, Print Assumptions audited). Node sections: decode_7bit(encode_7bit n) = n for every usize, unescape(escape bs) = bs, node code byte round trip, the exporter's choice of Terminal/Relative1/RelativeID/AbsoluteID codes is decoded to the same ids; for every reduced, duplicate-free, bottom-up numbered diagram the importer model run on the exporter model's BINARY node section (BCDD) and ASCII node section (BDD, BCDD, ZBDD, MTBDD) rebuilds exactly the exported nodes without consuming further input. Names: written variable/root names are non-empty and free of spaces/control characters, clean names are written unchanged, strict mode reports exactly the unclean/empty ones. WHOLE FILE (package C15h): load_header is total, any fuel above the input length gives the same result; load_header(print_header x ++ rest) = Ok(header_of x, rest) for every well-formed exporter-side header (2.0/3.0, names or not, any order/support; in 2.0 the support names are recovered exactly); whole-file round trip import_whole(export_whole x dag) = Ok(header_of x, the exported nodes, the exported roots) in binary (BCDD) and ASCII (all four kinds) mode; SAFETY OF ACCEPTANCE on ARBITRARY bytes: an accepted header satisfies all relations between its fields (ids ascending < nvars, distinct levels < nvars, counts, root ids non-zero <= nnodes, support_var_order = support sorted by level), an accepted file yields a well-formed unique table (children before parents, levels strictly increasing along edges, levels from the support), one valid edge per node id, valid roots, and every root denotes a well-defined function (unique big-step value = the executable evaluation for every sufficient fuel); the manager operations of the importer preserve the meaning (the edge returned by reduce+insert for BDD/BCDD/MTBDD denotes 'if x_level then t else e', a flipped tag and BDD not_edge denote the negation); NO PANIC: the model returns a special internal error wherever the Rust code indexes a vector / unwraps an Option / the model's fuel ends, and this value is proved unreachable for the loader and the importer on every input. On every run the real exporter/importer (BDD, BCDD, ZBDD, MTBDD; TDD export + header only) are driven through all 256 three-variable functions and random diagrams up to 10 variables in {ascii,binary}x{2.0,3.0}x{named,unnamed vars}x{named,unnamed roots}x{strict,non-strict} with hostile names: exporter Ok => DumpHeader::load + import Ok, same manager => identical handles, fresh manager / embedding => equal truth tables, header accessors = the model's sanitised names / support / order / root names and = the model loader's header, strict errors <=> model, model importer isomorphic to the dump of the real diagram, exporter models byte-identical. Malformed stream: every truncation point, random byte mutations and structured header mutations (numbers, tokens, separators, line order, duplicate/missing/new lines, other .varinfo/.mode/.ver, invalid UTF-8) of valid files: DumpHeader::load Err <-> load_header Err, both Ok => all header fields equal; import Err <-> model Err, both Ok => the real handles have exactly the functions the model reads from the same bytes; panics (catch_unwind), process aborts and hangs (watchdog) are violations. TDD (package C15t, theorems C15_tdd_*): binary_supported is false for ternary nodes, so every settings value yields '.mode A'; ExportSettings getters return what the builder calls stored (any chain of calls); for every reduced duplicate-free bottom-up numbered ternary diagram the decoder run on the exporter model's node section / whole file (any header) rebuilds exactly the exported nodes and roots; the generic import_ascii instantiated with ARITY = 3 (what the code would run if import_bin's static assertion did not make import::<TDDFunction> a compile error) rejects every such file with a node at its first terminal line ('expected 3 children, got 2': the exporter writes '{id} {desc} 0 0'), and whatever it accepts the decoder accepts with the same result; on ARBITRARY bytes both readers never reach the internal-error value (out-of-bounds index), an accepted file is a well-formed ternary diagram (children first, levels increasing along all three edges, levels from the support, valid positive roots) whose roots have a unique three-valued meaning = tdd_eval_root, and TDDRules::reduce + unique table preserve the meaning. On every run: every TDD export (three-valued functions incl. the Unknown terminal) is decoded by the extracted model: decoded diagram isomorphic to the dump of the real diagram, equal two-valued and (nv <= 6) three-valued truth tables, node section re-printed byte for byte, header as for the other kinds; ExportSettings::binary_supported and the four getters (settings in use + a random chain of builder calls) equal the model; TDD files (as written, with the unknown child dropped, with renamed terminals, mutated) go through the real importers of BDD/BCDD/ZBDD/MTBDD with Err <-> model Err and equal functions on acceptance.",
+    "level_note": "Trusted: Coq kernel, extraction (ExtrOcamlBasic), OCaml driver (trace parsing, comparison), Rust harness. The header is no longer scanned by the driver: the extracted load_header / import_whole_guarded (proved equivalent to import_whole) read the raw bytes. Modelled, not verified against a specification of their own: String::from_utf8_lossy (utf8_lossy mirrors core::str::lossy; compared on every name the real loader returns, incl. invalid UTF-8 from the mutation stream), the i64 terminal syntax, decimal printing (Gallina printer compared with the real output on every export). The exporter-side header (xheader: levels, support flags, level_to_var, sanitised names, root ids) is built by the driver from the trace; root ids are taken from the file because the exporter's node numbering depends on hash-map iteration order (they are checked against the dump through the isomorphism check). Not proved: uniqueness of the generated variable names (C15_var_names_unique_partial; the run checks that no exported file contains a duplicate name). The round-trip theorems are about reduced duplicate-free diagrams (what a manager holds); on other node lists the model importer hash-conses and reduces like the real one: covered by safety of acceptance (proof) and the malformed stream (run). Semantic correctness of acceptance w.r.t. a denotational reading of an arbitrary (non-exporter) file is not a theorem: 'both accept => same functions' is checked by the run. Totality of the REAL importer on arbitrary bytes is a search (mutation streams); the no-panic theorems are about the model, whose panic sites mirror the Rust indexing/unwrap sites. The loader's `lines` field (error messages only) is not modelled; vec![0; nvars] is modelled by a rank function (no allocation). ZBDD/MTBDD imports use a rejecting complement function; the six orders of the three-variable functions and random orders of the random diagrams are realised by oxidd_reorder::set_var_order on top of permuted variable numbering (VERIF_C15_REORDER=0 switches the reorder operations off). Files claiming more than 2^22 variables are not handed to DumpHeader::load (it allocates .nvars words by design). TDD has no importer in /repo (import::<TDDFunction> is a compile error, E0080: import_bin asserts ARITY == 2 statically; in addition import_ascii compares children.len() with ARITY before looking for a 0 child, so it could not read the exporter's terminal lines of a ternary diagram): the theorems about the reader with the code's arity check are proof-only (executed by the driver on every TDD file, no real counterpart); the decoder that stands in for the missing importer is a specification-level reader (the same function with the arity test moved into the inner-node branch), not Rust code; a rejecting complement function is assumed for TDD as for ZBDD/MTBDD. Consistent with the property text (TDD: export only), not reported as a defect.",
 }
 
 ALLOWED_AXIOMS = ()
@@ -107,13 +107,14 @@ def run(ctx):
         handle_bad(ctx, binp, drv, cases, bad)
     vf.write_evidence(
         ctx, "proof",
-        rule="(header loader / whole-file importer model compared on every input) valid stream: per diagram kind (bdd, bcdd, zbdd, mtbdd, tdd) the 256 three-variable functions in 32 cases of 8 functions (six variable numberings), random diagrams with 1..10 variables and unused variables; every case is exported in {binary,ascii} x {2.0,3.0} x {named,unnamed roots} with random root subsets, strict/non-strict, five naming styles (none, clean, partially named, hostile names with spaces/control characters/underscore prefixes/duplicates after sanitising, hostile + partially named). malformed stream: per base file every truncation point and random replace/insert/delete mutations (uniform bytes, interesting bytes, bytes of the file, bit flips; half of them in the node section), structured header mutations (500 per base file: numbers, tokens, separators, line order, duplicate/missing/new lines, invalid UTF-8), imports into managers with 0..11 nodes, plus the corpus of crafted files. evaluation = one export (X op) or one malformed import (M/L op); distinct = distinct (kind, defining ops, op) texts; non-trivial = export with at least one root, or any malformed import",
+        rule="(header loader / whole-file importer model compared on every input) valid stream: per diagram kind (bdd, bcdd, zbdd, mtbdd, tdd) the 256 three-variable functions in 32 cases of 8 functions (six variable numberings), random diagrams with 1..10 variables and unused variables; every case is exported in {binary,ascii} x {2.0,3.0} x {named,unnamed roots} with random root subsets, strict/non-strict, five naming styles (none, clean, partially named, hostile names with spaces/control characters/underscore prefixes/duplicates after sanitising, hostile + partially named). malformed stream: per base file every truncation point and random replace/insert/delete mutations (uniform bytes, interesting bytes, bytes of the file, bit flips; half of them in the node section), structured header mutations (500 per base file: numbers, tokens, separators, line order, duplicate/missing/new lines, invalid UTF-8), imports into managers with 0..11 nodes, TDD files through the importers of the four binary kinds (as written / unknown child dropped / terminals renamed / both, 100 mutations per base file and kind), a TDD malformed stream (header loader + model readers), plus the corpus of crafted files. TDD functions are three-valued (values 0/1/u), every X op carries a random chain of ExportSettings builder calls for the getter probe. evaluation = one export (X op) or one malformed import (M/L op); distinct = distinct (kind, defining ops, op) texts; non-trivial = export with at least one root, or any malformed import",
         checker_cmd="make -C coq Props/C15.vo (coqc 8.16.1) + Print Assumptions audit; ./check C15",
         extra_cov={"evaluations": evals, "cases_ok": ok, "cases_bad": len(bad), "tier": ctx.tier,
                    "reorder_cases": os.environ.get("VERIF_C15_REORDER", "1") != "0"},
         assumptions=["node ids and variable indices below 2^64 (usize of the 64-bit build)",
                      "the harness passes BooleanFunction::not_edge_owned as complement for BDD/BCDD and a rejecting function for ZBDD/MTBDD",
-                     "header numbers above 2^22 for .nvars are not handed to the loader (it allocates .nvars words by design)"])
+                     "header numbers above 2^22 for .nvars are not handed to the loader (it allocates .nvars words by design)",
+                     "TDD: /repo has no importer; the extracted decoder of coq/IO/DddmpTdd.v reads the exported files (three-valued tables for at most 6 variables)"])
 
 
 def replay(ctx, path):
